@@ -15,6 +15,13 @@ numpy parameter arrays that are updated IN PLACE in between (a -= step, a[:] = n
 interleaved).  The model is stateless, so every call is compared with the model trees evaluated at the
 CURRENT values and with finite differences on a fresh object (catches stale caches / aliasing of the
 caller's array).
+Generator families: besides generic random Hermitian generators, Hamiltonian blocks / ParameterizedHamiltonian
+terms are drawn from families with special spectra (Pauli strings, scaled Paulis, normalised sums of commuting
+Paulis with tr(H^2) = dim, random generators normalised to tr(H^2) = dim, (scaled) projectors, non-Pauli
+involutions, degenerate / integer spectra); get_unitary of every such block is compared with the harness's own expm.
+Subclass hooks: a share of the cases uses a SUBCLASS of VQA overriding get_initial_state() (|+..+>, another basis
+state, a random state); the model's expectation is then taken in that state, the finite-difference oracle is
+unchanged (gradient = derivative of the evaluated cost of the same object).
 """
 import contextlib
 import glob
@@ -40,7 +47,8 @@ TRUSTED = [
     "VQABlock.get_unitary_derivative(theta, t) returns (U*(-iH) for a Hamiltonian, scipy.linalg.expm_frechet for a "
     "ParameterizedHamiltonian), and a block unitary depends on no other parameter; validated by finite differences "
     "on every generated parameterised block (tolerance 1e-6)",
-    "ASSUMED: expect(obs, circ.run(|0..0>)) = Re<0|U^dag O U|0> with U = gate_sequence_product(circ.propagators()) "
+    "ASSUMED: expect(obs, circ.run(psi0)) = Re<psi0|U^dag O U|psi0>, psi0 = self.get_initial_state() (|0..0> for the base "
+    "class; the harness also runs subclasses overriding that hook and evaluates the model's EEv node in their state), U = gate_sequence_product(circ.propagators()) "
     "= P_{n-1}...P_0, propagator k of a user gate = user_gates[name](arg_value); Qobj arithmetic is exact matrix "
     "arithmetic; validated numerically (model expression tree evaluated in numpy vs evaluate_parameters/compute_jac, 1e-9)",
     "library-gate matrices and their expansion (QubitCircuit.propagators) are taken from the implementation (C08/C09)",
@@ -74,6 +82,124 @@ def _herm(seed, nq, scale=None):
     return h * (scale if scale is not None else (0.5 + rs.rand()))
 
 
+# Hermitian generator FAMILIES with special spectra (the random `_herm` has a generic, non-degenerate
+# spectrum and never satisfies an algebraic identity such as H^2 = 1 or tr(H^2) = dim):
+FAMILIES = ("pauli", "pauli_scaled", "comm_sum", "trnorm", "scaled_projector", "projector", "involution",
+            "degenerate", "diag_special")
+_PAULI = {
+    "I": np.eye(2, dtype=complex),
+    "X": np.array([[0, 1], [1, 0]], dtype=complex),
+    "Y": np.array([[0, -1j], [1j, 0]], dtype=complex),
+    "Z": np.array([[1, 0], [0, -1]], dtype=complex),
+}
+
+
+def _pauli_string(letters):
+    m = np.eye(1, dtype=complex)
+    for l in letters:
+        m = np.kron(m, _PAULI[l])
+    return m
+
+
+def _herm_family(seed, nq, fam):
+    """deterministic Hermitian generator of the named family on nq qubits"""
+    rs = np.random.RandomState((seed * 31 + 17) % (2 ** 31))
+    d = 2 ** nq
+    if fam in ("pauli", "pauli_scaled"):
+        while True:
+            letters = [rs.choice(list("IXYZ")) for _ in range(nq)]
+            if any(l != "I" for l in letters):
+                break
+        h = _pauli_string(letters)
+        if fam == "pauli_scaled":
+            h = h * float(rs.choice([0.5, -1.0, 2.0, 1.5, 0.25, -0.75]))
+        return h
+    if fam == "comm_sum":
+        # normalised sum of k distinct commuting Pauli strings (all letters from {I, P} with one P per qubit,
+        # P a per-qubit fixed Pauli): tr(H^2) = dim, H^2 != 1 for k >= 2
+        axes = [rs.choice(list("XYZ")) for _ in range(nq)]
+        masks = list(range(1, d))
+        rs.shuffle(masks)
+        k = 1 if d == 2 else int(rs.randint(2, min(4, d - 1) + 1))
+        terms = [_pauli_string([axes[q] if (m >> q) & 1 else "I" for q in range(nq)]) for m in masks[:k]]
+        if d == 2:   # one qubit: (P + c 1) normalised to tr(H^2) = 2
+            c = float(rs.choice([0.5, 1.0, 2.0]))
+            return (terms[0] + c * np.eye(2)) / math.sqrt(1 + c * c)
+        signs = [float(rs.choice([1.0, -1.0])) for _ in terms]
+        return sum(s * t for s, t in zip(signs, terms)) / math.sqrt(k)
+    v = _unitary(seed + 5, nq)
+    if fam == "trnorm":
+        m = rs.randn(d, d) + 1j * rs.randn(d, d)
+        h = (m + m.conj().T) / 2
+        return h * math.sqrt(d / float(np.real(np.trace(h @ h))))
+    if fam == "scaled_projector":      # sqrt(dim/r) * projector of rank r: tr(H^2) = dim
+        r = int(rs.randint(1, d))
+        ev = np.array([1.0] * r + [0.0] * (d - r)) * math.sqrt(d / r)
+    elif fam == "projector":
+        r = int(rs.randint(1, d))
+        ev = np.array([1.0] * r + [0.0] * (d - r))
+    elif fam == "involution":          # H^2 = 1 exactly up to rounding, not a Pauli string
+        r = int(rs.randint(0, d + 1))
+        ev = np.array([1.0] * r + [-1.0] * (d - r))
+    elif fam == "degenerate":
+        ev = np.array([float(rs.choice([0.0, 1.0, -1.0, 0.5, 2.0])) for _ in range(d)])
+    elif fam == "diag_special":        # diagonal, spectrum with tr(H^2) = dim or integer entries
+        if rs.rand() < 0.5:
+            ev = np.zeros(d)
+            ev[0] = math.sqrt(d / 2.0)
+            ev[-1] = -math.sqrt(d / 2.0)
+        else:
+            ev = np.array([float(rs.randint(-2, 3)) for _ in range(d)])
+        rs.shuffle(ev)
+        return np.diag(ev).astype(complex)
+    else:
+        raise ValueError(fam)
+    return (v * ev) @ v.conj().T
+
+
+def _gen_matrix(b, seed, nq):
+    """generator of a block description: random generic unless the block names a family"""
+    fam = b.get("fam")
+    return _herm(seed, nq) if not fam else _herm_family(seed, nq, fam)
+
+
+def _init_state(hook, nq):
+    """the state a subclass's get_initial_state() returns (None: the base class's |0..0>)"""
+    d = 2 ** nq
+    psi = np.zeros(d, dtype=complex)
+    kind = (hook or {}).get("init")
+    if kind is None:
+        psi[0] = 1.0
+    elif kind == "plus":
+        psi[:] = 1.0 / math.sqrt(d)
+    elif kind == "basis":
+        psi[hook["seed"] % d] = 1.0
+    elif kind == "random":
+        rs = np.random.RandomState(hook["seed"] % (2 ** 31))
+        psi = rs.randn(d) + 1j * rs.randn(d)
+        psi = psi / np.linalg.norm(psi)
+    else:
+        raise ValueError(kind)
+    return psi
+
+
+def make_vqa(case):
+    """the real object: VQA itself, or a SUBCLASS overriding the public hook get_initial_state()"""
+    import qutip
+    from qutip_qip.vqa import VQA
+    nq = case["nq"]
+    hook = case.get("hook")
+    if not hook:
+        return VQA(num_qubits=nq, num_layers=case["layers"])
+    psi = _init_state(hook, nq)
+
+    class HookedVQA(VQA):
+        def get_initial_state(self):
+            return qutip.Qobj(psi.reshape(-1, 1), dims=[[2] * self.num_qubits, [1] * self.num_qubits])
+
+    return HookedVQA(num_qubits=nq, num_layers=case["layers"])
+
+
 def _unitary(seed, nq):
     rs = np.random.RandomState(seed % (2 ** 31))
     d = 2 ** nq
@@ -96,7 +222,8 @@ class Built:
         dims = [[2] * nq, [2] * nq]
         self.case = case
         self.nq = nq
-        self.vqa = VQA(num_qubits=nq, num_layers=case["layers"])
+        self.vqa = make_vqa(case)
+        self.psi0 = _init_state(case.get("hook"), nq)
         self.obs = _herm(case["obs_seed"], nq, scale=1.0 + (case["obs_seed"] % 3))
         self.vqa.cost_observable = qutip.Qobj(self.obs, dims=dims)
         self.spec = []      # per block: dict(kind, H=[...], c=..., U=...)
@@ -113,11 +240,11 @@ class Built:
         k = b["kind"]
         s = dict(kind=k, initial=bool(b.get("initial")))
         if k == "ham":
-            s["H"] = [_herm(b["seed"], nq)]
+            s["H"] = [_gen_matrix(b, b["seed"], nq)]
             s["c"] = None
             blk = VQABlock(qutip.Qobj(s["H"][0], dims=dims), initial=s["initial"])
         elif k == "ph":
-            s["H"] = [_herm(b["seed"] + 101 * t, nq) for t in range(b["m"])]
+            s["H"] = [_gen_matrix(b, b["seed"] + 101 * t, nq) for t in range(b["m"])]
             s["c"] = _herm(b["seed"] + 7777, nq) if b.get("const") else None
             if b["m"] == 0 and s["c"] is None:
                 s["c"] = _herm(b["seed"] + 7777, nq)
@@ -241,7 +368,7 @@ def eval_ex(built, angles, tree):
         if tag == "EFix":
             return built.fixed(t[1])
         if tag == "EEv":
-            return float(np.real(go(t[1])[0, 0]))
+            return float(np.real(built.psi0.conj() @ go(t[1]) @ built.psi0))
         raise ValueError("unknown node %r" % (tag,))
 
     return go(tree)
@@ -485,6 +612,17 @@ def check_block_derivatives(built, case, rng_seed):
             continue
         th = list(rs.uniform(-2 * math.pi, 2 * math.pi, size=n))
         blk = built.blocks[bi]
+        # the block map itself: get_unitary(theta) = exp(-i (sum_t theta_t H_t + C)), own scipy expm of the
+        # harness's own matrices (matters for generators with special spectra: H^2 = 1, tr(H^2) = dim, projectors)
+        try:
+            ur = blk.get_unitary(list(th)).full()
+        except Exception as e:
+            return dict(observed="raises " + type(e).__name__, expected="unitary",
+                        what="block unitary: get_unitary raises (block %d)" % bi)
+        err = float(np.max(np.abs(ur - built.U(bi, th))))
+        if err > 1e-9:
+            return dict(observed=dict(max_abs_difference=err, theta=[float(x) for x in th]), expected="<1e-9",
+                        what="block unitary: get_unitary(theta) of block %d is not exp(-i theta.H)" % bi)
         for t in range(n):
             p = list(th)
             m = list(th)
@@ -615,12 +753,19 @@ def compare(built, case, real, mval):
 # ------------------------------------------------------------------------------------------------
 # generators
 # ------------------------------------------------------------------------------------------------
-def gen_block(rng, nq, kinds):
+def gen_hook(rng):
+    """a VQA SUBCLASS overriding get_initial_state(): |+..+>, another basis state, a random normalised state"""
+    return dict(init=rng.choice(["plus", "plus", "basis", "random"]), seed=rng.randrange(1, 10 ** 6))
+
+
+def gen_block(rng, nq, kinds, fam_p=0.3):
     k = rng.choice(kinds)
     b = dict(kind=k, initial=rng.random() < 0.3, seed=rng.randrange(1, 10 ** 6))
     if k == "ph":
         b["m"] = rng.choice([1, 2, 2, 3])
         b["const"] = rng.random() < 0.5
+    if k in ("ham", "ph") and rng.random() < fam_p:
+        b["fam"] = rng.choice(FAMILIES)      # generator(s) with a special spectrum instead of a generic one
     if k in ("native", "native_arg"):
         if k == "native_arg":
             b["gate"] = rng.choice(NATIVE_ARG)
@@ -710,17 +855,45 @@ def gen_idxs(rng, n):
     return list(range(rng.randrange(n), n))   # what layer_by_layer asks for
 
 
-def gen_case(rng, kinds=("ham", "ham", "ph", "ph", "unit", "native"), maxblocks=4, max_nq=3, max_layers=3, max_free=12):
+def gen_case(rng, kinds=("ham", "ham", "ph", "ph", "unit", "native"), maxblocks=4, max_nq=3, max_layers=3, max_free=12,
+             fam_p=0.3, hook_p=0.2):
     while True:
         nq = rng.randint(1, max_nq)
         case = dict(nq=nq, layers=rng.randint(1, max_layers), obs_seed=rng.randrange(1, 10 ** 6),
-                    blocks=[gen_block(rng, nq, kinds) for _ in range(rng.randint(1, maxblocks))],
+                    blocks=[gen_block(rng, nq, kinds, fam_p) for _ in range(rng.randint(1, maxblocks))],
                     as_array=rng.random() < 0.5)
         n = count_free(case)
         if n <= max_free:
             break
     case["angles"] = gen_angles(rng, n)
     case["idxs"] = gen_idxs(rng, n)
+    if rng.random() < hook_p:
+        case["hook"] = gen_hook(rng)
+    return case
+
+
+def gen_family_case(rng, k):
+    """every single-parameter Hamiltonian block / every ParameterizedHamiltonian term from a special family;
+    the families are cycled so each occurs, on 1..3 qubits"""
+    case = gen_case(rng, kinds=("ham", "ham", "ham", "ph", "unit", "native"), maxblocks=3, max_free=8, fam_p=1.0,
+                    hook_p=0.15)
+    hams = [b for b in case["blocks"] if b["kind"] in ("ham", "ph")]
+    if not hams:
+        case["blocks"].append(dict(kind="ham", initial=False, seed=rng.randrange(1, 10 ** 6)))
+        hams = [case["blocks"][-1]]
+        case["angles"] = gen_angles(rng, count_free(case))
+        case["idxs"] = None
+    hams[0]["fam"] = FAMILIES[k % len(FAMILIES)]
+    if k % 3 == 0:
+        case["idxs"] = None
+    return case
+
+
+def gen_hook_case(rng):
+    """a subclass of VQA overriding the documented hook get_initial_state()"""
+    case = gen_case(rng, maxblocks=3, max_free=8, hook_p=1.0)
+    if rng.random() < 0.5:
+        case["idxs"] = None
     return case
 
 
@@ -780,7 +953,8 @@ def corpus_cases():
 
 
 def structure_key(case):
-    return json.dumps([case["nq"], case["layers"], [(b["kind"], b.get("m"), bool(b.get("initial")), b.get("gate")) for b in case["blocks"]],
+    return json.dumps([case["nq"], case["layers"], [(b["kind"], b.get("m"), bool(b.get("initial")), b.get("gate"), b.get("fam")) for b in case["blocks"]],
+                       (case.get("hook") or {}).get("init"),
                        case.get("idxs"), len(case["angles"]), [a == 0 for a in case["angles"]],
                        len(set(case["angles"])) < len(case["angles"]), case.get("container")])
 
@@ -853,7 +1027,7 @@ def gen_staged_history(rng):
         if count_free(case) > 0:
             break
     case["as_array"] = True
-    cur = json.loads(json.dumps({k: case[k] for k in ("nq", "layers", "obs_seed", "blocks")}))
+    cur = json.loads(json.dumps({k: case[k] for k in ("nq", "layers", "obs_seed", "blocks", "hook") if k in case}))
     stages = []
     for k in range(rng.randint(2, 3)):
         mut = None
@@ -886,7 +1060,7 @@ def stage_cases(case):
     """[(mutation or None, effective plain case of that stage)]"""
     if "stages" not in case:
         return [(None, case)]
-    cur = json.loads(json.dumps({k: case[k] for k in ("nq", "layers", "obs_seed", "blocks")}))
+    cur = json.loads(json.dumps({k: case[k] for k in ("nq", "layers", "obs_seed", "blocks", "hook") if k in case}))
     out = []
     for st in case["stages"]:
         mut = st.get("mut")
@@ -1111,7 +1285,7 @@ def layer_counts(case):
 def probe_model_cases(case):
     """plain cases whose model value describes what the optimiser must receive, one per minimize() call"""
     o = case["optimize"]
-    base = {k: case[k] for k in ("nq", "obs_seed", "blocks")}
+    base = {k: case[k] for k in ("nq", "obs_seed", "blocks", "hook") if k in case}
     if not o["layer_by_layer"]:
         c = dict(base, layers=case["layers"], angles=[0.0] * count_free(case), idxs=None, as_array=True)
         return [c]
@@ -1253,7 +1427,11 @@ def correspond(ctx):
                      "Parameter vectors are also passed in every numeric container (list/tuple of ints, int64/int32/float32 "
                      "ndarray, mixed, numpy scalars) and compared at the same float values. Histories contain REJECTED calls "
                      "(duplicate-name add_block, short vector, non-collection indices) caught by the harness: the model treats "
-                     "a rejected call as a no-op")
+                     "a rejected call as a no-op. Generators: generic random Hermitian, or (about 30% of the blocks and a "
+                     "dedicated stream cycling all of them) families with special spectra: Pauli strings, scaled Paulis, "
+                     "normalised sums of commuting Paulis, tr(H^2)=dim, projectors, involutions, degenerate/integer spectra; "
+                     "get_unitary of each is compared with an independent expm. About 20% of all cases (and a dedicated "
+                     "stream) use a VQA subclass overriding get_initial_state()")
     rng = ctx.rng
     cases = []
     for c in corpus_cases():
@@ -1271,6 +1449,10 @@ def correspond(ctx):
         cases.append((gen_container_case(rng, k), "container-types"))
     for c in zero_sweep(rng, ctx.n(12, 80)):
         cases.append((c, "zero-at-each-position"))
+    for k in range(ctx.n(72, 540)):
+        cases.append((gen_family_case(rng, k), "generator-families"))
+    for _ in range(ctx.n(50, 400)):
+        cases.append((gen_hook_case(rng), "subclass-get_initial_state"))
     for _ in range(ctx.n(100, 800)):
         cases.append((gen_history(rng), "history"))
     for _ in range(ctx.n(80, 600)):
@@ -1299,6 +1481,10 @@ def correspond(ctx):
         corr.tally(kind)
         for b in case["blocks"]:
             corr.tally("block:" + b["kind"] + (str(b["m"]) if b["kind"] == "ph" else ""))
+            if b.get("fam"):
+                corr.tally("generator-family:" + b["fam"])
+        if case.get("hook"):
+            corr.tally("subclass overriding get_initial_state:" + case["hook"]["init"])
         corr.tally("layers:%d" % case["layers"])
         corr.tally("qubits:%d" % case["nq"])
         corr.tally("indices:" + ("all" if case.get("idxs") is None else "subset"))
@@ -1446,6 +1632,10 @@ def search(ctx, broken):
     rng = ctx.rng
     # boundary values first: a structural disagreement that needs an exact 0.0 (or a repeated / pi-multiple
     # angle) at a particular block position, or a change of the live object, must yield a concrete input
+    for k in range(ctx.n(36, 180)):
+        cands.append(gen_family_case(rng, k))
+    for _ in range(ctx.n(20, 100)):
+        cands.append(gen_hook_case(rng))
     cands += zero_sweep(rng, ctx.n(15, 60))
     for _ in range(ctx.n(80, 400)):
         cands.append(gen_boundary_case(rng))
